@@ -74,6 +74,38 @@ def h_symbolic(q1: int, q2: int, x: str, y: str, seqs=(1, 8, 4, 15)):
     return check_parse(a + x + b + y)
 
 
+def h_set_ansi_str(q1: int, t1: int, q2: int, t2: int, used: int):
+    """set_ansi_str on an object that already carries text and formatting gives what the constructor gives."""
+    a = choose(q1, SEQS)
+    if a is None:
+        return None
+    x = choose(t1, TEXTS1)
+    if x is None:
+        return None
+    b = choose(q2, SEQS)
+    if b is None:
+        return None
+    y = choose(t2, TEXTS2)
+    if y is None:
+        return None
+    u = pick(used, 0, 2)
+    if u is None:
+        return None
+    inp = a + x + b + y
+    s = AnsiString('hello', 'red') if u == 0 else AnsiString('\x1b[1;4mab\x1b[22mcd') if u == 1 else AnsiString('')
+    if u == 1:
+        s.apply_formatting('blue', 1, 3)
+    s.set_ansi_str(inp)
+    e = AnsiString(inp)
+    if s.base_str != e.base_str or S(s) != S(e) or str(s) != str(e) or not (s == e):
+        return ('set_ansi_str-differs-from-constructor', inp, S(s), S(e))
+    s.set_ansi_str(inp)
+    if S(s) != S(e) or str(s) != str(e):
+        return ('set_ansi_str-twice-differs', inp, S(s), S(e))
+    cover('set')
+    return True
+
+
 def h_plain(t: str, n: int):
     """Text without ESC is kept unchanged and unformatted (any characters)."""
     if len(t) != n or ESC in t:
@@ -120,6 +152,9 @@ def obligations(tier):
         f = dict(q1=q1, q3=0, t3=0)
         obs.append(Ob('seg2/q%d' % q1, h_segments, f, need=('sgr',) if q1 not in (0, 15, 16, 17, 27, 28) else (), budget=900,
                       bounds='2 segments, first sequence %r' % SEQS[q1], kinds=KINDS))
+    for q1 in (1, 3, 8, 13, 17, 0):
+        obs.append(Ob('set_ansi_str/q%d' % q1, h_set_ansi_str, dict(q1=q1), need=('set',), budget=600,
+                      bounds='set_ansi_str on 3 used receivers, first sequence %r' % SEQS[q1], kinds=KINDS))
     obs.append(Ob('seg1/ansistr', h_segments, dict(q2=0, t2=0, q3=0, t3=0, cls=1), need=('sgr', 'no-sgr'), budget=300,
                   bounds='1 segment, AnsiStr', kinds=KINDS))
     if tier == 'thorough':
